@@ -300,7 +300,10 @@ func (mw *msgWriter) stopMP() {
 // Returns:
 //   - A string representing the multipart boundary, or an empty string if none is found.
 func (mw *msgWriter) getMultipartBoundary(msg *Msg, mimetype MIMEType) string {
-	if msg.boundary != "" {
+	// A predefined boundary can only be used once, otherwise the delimiters of nested multiparts
+	// would be indistinguishable. It is therefore used for the outermost multipart only, nested
+	// multiparts get a generated boundary.
+	if msg.boundary != "" && (mw.depth == 0 || msg.multiPartBoundary[mimetype] == msg.boundary) {
 		return msg.boundary
 	}
 	if msg.multiPartBoundary[mimetype] != "" {
